@@ -361,6 +361,38 @@ def run(ctx):
                     f = 'exception-%s: %s' % (c['op'], type(ex).__name__ + ':' + str(ex)[:100])
                 if f:
                     ctx.report(c, 'failure', f)
+    # the one-operand matrix functions on polynomials with whole orders exactly zero (A0 + t^2 A2 + t^3 A3; A0 + t A1 + t^3 A3; odd orders
+    # zero; affine A0 + t A1 carried to D = 4 -- what seeding at a stationary point or a Hessian-type seed produces), the pattern in
+    # one direction only or in all: on every run
+    for kind in ('inv', 'det', 'logdet', 'trace', 'expm'):
+        for pat in ('order1-zero', 'order2-zero', 'odd-orders-zero', 'affine'):
+            for where in ('all', 'first'):
+                D, P, n = 4, 2, rng.choice([2, 3])
+                c = {'op': kind, 'D': D, 'P': P}
+                if kind == 'expm':
+                    c['q'] = 7
+                    c['x'] = rand_coeffs(rng, (D, P, n, n), -0.5, 0.5)
+                else:
+                    c['x'] = ops.gen_square(rng, D, P, n)
+                a = np.array(c['x'])
+                sl = slice(None) if where == 'all' else slice(0, 1)
+                if pat == 'order1-zero':
+                    a[1, sl] = 0
+                elif pat == 'order2-zero':
+                    a[2, sl] = 0
+                elif pat == 'odd-orders-zero':
+                    a[1::2, sl] = 0
+                else:
+                    a[2:, sl] = 0
+                c['x'] = a
+                ctx.evaluations += 1
+                ctx.count('op=%s:sparse-%s' % (kind, pat))
+                try:
+                    f = check(ctx, c)
+                except Exception as ex:
+                    f = 'exception-%s: %s' % (c['op'], type(ex).__name__ + ':' + str(ex)[:100])
+                if f:
+                    ctx.report(c, 'failure', f)
     # solve with a CONSTANT right-hand side and a matrix polynomial whose odd orders vanish (A(t) = A0 + t^2 A2 + ...)
     for P_ in (1, 2):
         A_ = ops.gen_square(rng, 4, P_, 2)
